@@ -159,7 +159,7 @@ def run_case(rng, idx, tier):
     if idx % 10 == 4:
         return _evaluators(c, rng, model, sname, steps, tier)
     if idx % 10 == 3:
-        return _solve_ode(c, rng, model, sname, steps)
+        return _solve_ode(c, rng, model, sname, steps, tier)
     R = refactorings()
     rname = rng.choice(sorted(R))
     c.sample = {"start": sname, "steps": steps, "refactoring": rname}
@@ -411,6 +411,9 @@ def _evaluators(c, rng, model, sname, steps, tier):
 
     c.sample = {"start": sname, "steps": steps, "refactoring": "evaluators"}
     c.fp = fp_of(sname, steps, "evaluators")
+    if _too_large_for_quick(model, tier):
+        c.skipped = "ode-system-with-more-than-2-compartments-left-to-the-thorough-tier"
+        return c
     if model.statements.ode_system is not None:
         # the extractors work on ODE-free models: use the closed-form solution (judged on its own below)
         try:
@@ -534,7 +537,13 @@ def _evaluators_body(c, rng, model, sname, steps, ird, recs, etas, epss, ylab, e
     return c
 
 
-def _solve_ode(c, rng, model, sname, steps):
+def _too_large_for_quick(model, tier):
+    """Closed forms of systems with more than two compartments take sympy up to minutes: thorough tier only."""
+    cs = model.statements.ode_system
+    return tier == "quick" and cs is not None and len(cs) > 2
+
+
+def _solve_ode(c, rng, model, sname, steps, tier="thorough"):
     """solve_ode_system: the closed-form amounts must satisfy the original ODE system (d/dt of the closed form,
     by central differences in t, equals the vector field evaluated at the closed-form amounts) for t after a dose."""
     import pharmpy.modeling as pm
@@ -547,6 +556,9 @@ def _solve_ode(c, rng, model, sname, steps):
     c.fp = fp_of(sname, steps, "solve_ode_system")
     if model.statements.ode_system is None:
         c.skipped = "no-ode"
+        return c
+    if _too_large_for_quick(model, tier):
+        c.skipped = "ode-system-with-more-than-2-compartments-left-to-the-thorough-tier"
         return c
     try:
         solved = pm.solve_ode_system(model)
